@@ -99,8 +99,9 @@ contract(T3EMU + '.process_command', 'C07', dict(self=EMU(), cmd=Bytes(0, 300, m
 # ndef.DecodeError / ndef.EncodeError; the application upcalls return a response code or records.
 SS = 'nfc.snep.server:'
 contract('ndef:message_decoder', 'C07', dict(octets=Any()), name='C07/ndef.message_decoder', assumed=True,
-         note='ndeflib: decodes the octets or raises ndef.DecodeError (not modelled: the except clause is ndeflib\'s)',
-         raises={}, returns=Fixed([]))
+         note='ndeflib (observed, 200000 mutated messages): decodes the octets or raises ndef.DecodeError, or - for '
+              'some malformed records, e.g. a record type with an octet above 7Fh - ValueError/UnicodeDecodeError',
+         raises={'ndef:DecodeError': [], 'ValueError': []}, returns=Fixed([]))
 contract('ndef:message_encoder', 'C07', dict(message=Any()), name='C07/ndef.message_encoder', assumed=True,
          note='ndeflib: yields the octets of each record', raises={}, returns=Fixed([]))
 contract(SS + 'SnepServer.process_put_request', 'C07', dict(self=Any(), ndef_message=Any()),
